@@ -505,6 +505,8 @@ def _b_setattr(interp, st, args, kw):
 
 def _b_sorted(interp, st, args, kw):
     v = interp.resolve(st, args[0])
+    if isinstance(v, MapItems) and st.ghost.get("sorted_keys") is not None:
+        return st.ghost["sorted_keys"](interp, st, v, kw)
     if isinstance(v, VSym):
         return v.theory.sorted(interp, st, v, kw)
     items = interp.iterate_concrete(st, v)
